@@ -485,7 +485,7 @@ def plan(tier):
     F = F_space()
     L = lists_space()
     table = _ops()
-    names = OPS_QUICK if tier == "quick" else list(table)
+    names = OPS_QUICK if tier == "quick" else [n for n in table if "failing" not in n]
     n = 2 if tier == "quick" else 3
     fn_seq = make_fn_seq(_ops, build, "tree")
     fn_doc = make_fn_seq(lambda: DOC_OPS, build_doc, "doc")
